@@ -526,7 +526,11 @@ fn dump<'tcx>(tcx: TyCtxt<'tcx>, out_dir: &str, krate: &str) {
                             AssertKind::RemainderByZero(..) => "rem_zero",
                             _ => "other",
                         };
-                        let _ = write!(out, "[\"assert\",{},{},{}]", esc(k), target.as_usize(), line);
+                        if let AssertKind::BoundsCheck { len, index } = &**msg {
+                            let _ = write!(out, "[\"assert\",{},{},{},{},{}]", esc(k), target.as_usize(), line, cx.op(index), cx.op(len));
+                        } else {
+                            let _ = write!(out, "[\"assert\",{},{},{}]", esc(k), target.as_usize(), line);
+                        }
                     }
                     TerminatorKind::Unreachable => out.push_str("[\"unreach\"]"),
                     TerminatorKind::UnwindResume => out.push_str("[\"resume\"]"),
